@@ -266,6 +266,7 @@ func (w *world) mainTTL() {
 
 func (w *world) main() {
 	p := w.p
+	vsched.UnlockPoints = p.CT > 0 // the rotation of a mapped address: a dial can be overtaken right after it left the critical section
 	if p.TTL > 0 {
 		w.mainTTL()
 		return
